@@ -377,7 +377,9 @@ func genCrash(w *bufio.Writer, root string, seed uint64, n, ops int, thorough bo
 					tag = fmt.Sprintf(" v=%s first=%d", fileVersion(filepath.Join(ev.img, baseName(ev.path)), magicLast(ev.path)), b(ev.sizeBefore == 0))
 				}
 				obs0 := c.observeImage(ev.img)
-				fmt.Fprintf(w, "crash.img k=%d ev=%s:%s torn=-%s => %s\n", k, ev.kind, baseName(ev.path), tag, obs0)
+				// the directory listing of the image: it must be one of the model's crash states of this operation
+				ls := strings.ReplaceAll(strings.TrimPrefix(fsobs(ev.img), "ok "), " ", ",")
+				fmt.Fprintf(w, "crash.img k=%d ev=%s:%s torn=-%s fs=%s => %s\n", k, ev.kind, baseName(ev.path), tag, ls, obs0)
 				if ev.kind == "append" && ev.n > 1 {
 					var cuts []int64
 					if thorough {
